@@ -567,3 +567,25 @@ def gen_portfolio(rnd, kinds=None, tmax=14, tz_prob=0.15, allow_mip=True, max_as
             if x not in all_nodes:
                 all_nodes.append(x)
     return {'grid': g, 'nodes': all_nodes, 'prices': prices, 'assets': assets}
+
+
+def make_late_start(s, rnd):
+    """nothing is active in the first part of the horizon: every asset gets a start at a common later grid point
+    (first interval(s) of a split optimisation are then without any asset); returns the step or None"""
+    T = s['grid']['T_nominal']
+    k0 = rnd.randint(max(1, T // 3), max(1, (2 * T) // 3))
+    st = P(s['grid'], k0)
+    if not ok_local(st, s['grid']):
+        return None
+    for a in s['assets']:
+        tgt = a['base']['args'] if a['type'] == 'ScaledAsset' else a['args']
+        if a['type'] in ('OrderBook', 'StructuredAsset'):
+            continue
+        cur = tgt.get('start')
+        if cur is None or pd.Timestamp(cur['$dt']) < st:
+            tgt['start'] = dtv(st)
+        if 'end' in tgt and pd.Timestamp(tgt['end']['$dt']) <= pd.Timestamp(tgt['start']['$dt']):
+            tgt.pop('end')
+    s['assets'] = [a for a in s['assets'] if a['type'] not in ('OrderBook', 'StructuredAsset')] or s['assets']
+    s['late_start'] = k0
+    return k0
